@@ -80,6 +80,8 @@ impl PartialEq<str> for IStr {
 impl Hash for IStr {
 	fn hash<H: Hasher>(&self, state: &mut H) {
 		// IStr is always obtained from pool, where no string have duplicate, thus every unique string has unique address
+		#[cfg(jrsonnet_verif)]
+		state.write_usize(verif::hash_salt());
 		state.write_usize(Inner::as_ptr(&self.0).cast::<()>() as usize);
 	}
 }
@@ -152,6 +154,8 @@ impl PartialEq for IBytes {
 impl Hash for IBytes {
 	fn hash<H: Hasher>(&self, state: &mut H) {
 		// IBytes is always obtained from pool, where no string have duplicate, thus every unique string has unique address
+		#[cfg(jrsonnet_verif)]
+		state.write_usize(verif::hash_salt());
 		state.write_usize(Inner::as_ptr(&self.0).cast::<()>() as usize);
 	}
 }
@@ -267,6 +271,37 @@ pub mod interop {
 		POOL.with_borrow_mut(|pool| {
 			let _ = mem::replace(pool, ptr);
 		});
+	}
+}
+
+/// Verification hooks, compiled only under `--cfg jrsonnet_verif`.
+///
+/// Read-only pool size accessor, and a salt mixed into the address-based
+/// hashes of interned values, which lets a harness enumerate hash iteration
+/// orders of every map keyed by interned strings.
+#[cfg(jrsonnet_verif)]
+pub mod verif {
+	use std::cell::Cell;
+
+	use crate::POOL;
+
+	thread_local! {
+		static HASH_SALT: Cell<usize> = const { Cell::new(0) };
+	}
+
+	/// Number of distinct byte strings currently in this thread's pool
+	#[must_use]
+	pub fn pool_len() -> usize {
+		POOL.with_borrow(hashbrown::HashMap::len)
+	}
+	/// Salt mixed into `Hash for IStr`/`IBytes`; only change it while no
+	/// hash map keyed by interned strings is alive on this thread.
+	pub fn set_hash_salt(salt: usize) {
+		HASH_SALT.set(salt);
+	}
+	#[must_use]
+	pub fn hash_salt() -> usize {
+		HASH_SALT.get()
 	}
 }
 
